@@ -56,9 +56,15 @@ package keeper
 //@ modifies module:perpetual, *mtp, *pool
 //@ frame-only
 
+// C09: paying borrow interest takes the same custody from the position and from the pool's book for
+// the position's side and custody asset, and touches no other aggregate.
 //@ func (Keeper).SettleMTPBorrowInterestUnpaidLiability
+//@ forall d Str
+//@ forall s Int
 //@ modifies bank, module:amm, *mtp, *pool
-//@ frame-only
+//@ ensures C09/interest-leaves-position-and-pool-custody-alike: err == nil ==> perpCustodyOf(pool, s, d) - old(perpCustodyOf(pool, s, d)) == ite(sameBook(s, d, mtp.Position, mtp.CustodyAsset), mtp.Custody - old(mtp.Custody), 0)
+//@ ensures C09/interest-keeps-liabilities-and-collateral: err == nil ==> mtp.Liabilities == old(mtp.Liabilities) && mtp.Collateral == old(mtp.Collateral) && perpLiabOf(pool, s, d) == old(perpLiabOf(pool, s, d)) && perpCollOf(pool, s, d) == old(perpCollOf(pool, s, d))
+//@ ensures C09/interest-keeps-the-position-identity: mtp.Position == old(mtp.Position) && mtp.CustodyAsset == old(mtp.CustodyAsset) && mtp.AmmPoolId == old(mtp.AmmPoolId)
 
 //@ func (Keeper).UpdateMTPBorrowInterestUnpaidLiability
 //@ modifies *mtp
@@ -98,9 +104,19 @@ package keeper
 //@ modifies *mtp
 //@ frame-only
 
+// C09: a new position's amounts are added to the pool's books for its side and assets. (When the pool
+// does not list the custody asset the function returns success without recording anything - see
+// DESIGN A.6; the clause is stated for listed assets.)
 //@ func (Keeper).Borrow
+//@ decabstract
+//@ forall d Str
+//@ forall s Int
 //@ modifies bank, module:amm, module:perpetual, *mtp, *ammPool, *pool
-//@ frame-only
+//@ requires mtp.Custody == 0 && mtp.Liabilities == 0 && mtp.Collateral == 0
+//@ ensures C09/borrow-adds-the-position-custody-to-the-pool: err == nil && old(perpLists(pool, mtp.Position, mtp.CustodyAsset)) ==> perpCustodyOf(pool, s, d) - old(perpCustodyOf(pool, s, d)) == ite(sameBook(s, d, mtp.Position, mtp.CustodyAsset), mtp.Custody, 0)
+//@ ensures C09/borrow-adds-the-position-liabilities-to-the-pool: err == nil && old(perpLists(pool, mtp.Position, mtp.CustodyAsset)) ==> perpLiabOf(pool, s, d) - old(perpLiabOf(pool, s, d)) == ite(sameBook(s, d, mtp.Position, mtp.LiabilitiesAsset), mtp.Liabilities, 0)
+//@ ensures C09/borrow-adds-the-position-collateral-to-the-pool: err == nil && old(perpLists(pool, mtp.Position, mtp.CustodyAsset)) ==> perpCollOf(pool, s, d) - old(perpCollOf(pool, s, d)) == ite(sameBook(s, d, mtp.Position, mtp.CollateralAsset), mtp.Collateral, 0)
+//@ ensures C09/borrow-stores-the-updated-pool: err == nil && old(perpLists(pool, mtp.Position, mtp.CustodyAsset)) ==> perpPoolHas(ctx, pool.AmmPoolId) && perpCustodyOf(perpPoolRow(ctx, pool.AmmPoolId), s, d) == perpCustodyOf(pool, s, d) && perpLiabOf(perpPoolRow(ctx, pool.AmmPoolId), s, d) == perpLiabOf(pool, s, d) && perpCollOf(perpPoolRow(ctx, pool.AmmPoolId), s, d) == perpCollOf(pool, s, d)
 
 //@ func (Keeper).UpdatePoolHealth
 //@ modifies module:perpetual, *pool
@@ -161,8 +177,25 @@ package keeper
 // A stored position sits under its owner's address and its id.
 //@ rowinv C10/mtpKey table perpetual:types.GetMTPKey row types.MTP : unbech32(row.Address) == key0 && row.Id == key1
 
+// C09: the open-position counter moves with the number of stored positions. Position ids are handed out
+// from a counter: nothing is stored under an id above it (assumed at entry, as for leveragelp).
+//@ aggregate mtpCount table perpetual:types.GetMTPKey row types.MTP value 1
+//@ define openMtpCount(ctx) := rowU64(ctx, "perpetual:types.OpenMTPCountPrefix")
+//@ define mtpIdCount(ctx) := rowU64(ctx, "perpetual:types.MTPCountPrefix")
+//@ define mtpCountGap(ctx) := openMtpCount(ctx) - mtpCount(ctx)
+
 //@ func (Keeper).SetMTP
+//@ modifies table:perpetual:types.GetMTPKey, table:perpetual:types.MTPCountPrefix, table:perpetual:types.OpenMTPCountPrefix, *mtp.Id
+//@ modular-for (Keeper).Borrow
+//@ assumes !mtpHas(ctx, unbech32(mtp.Address), mtpIdCount(ctx) + 1)
 //@ ensures C10/stored-under-owner-and-id: err == nil ==> mtpHas(ctx, unbech32(mtp.Address), mtp.Id)
+//@ ensures C09/set-keeps-open-counter-in-step: err == nil ==> mtpCountGap(ctx) == old(mtpCountGap(ctx)) + ite(old(mtp.Id) == 0, 0, ite(old(mtpHas(ctx, unbech32(mtp.Address), mtp.Id)), 0, 0 - 1))
+//@ ensures C09/set-stores-the-amounts: err == nil ==> mtpRow(ctx, unbech32(mtp.Address), mtp.Id).Custody == mtp.Custody && mtpRow(ctx, unbech32(mtp.Address), mtp.Id).Liabilities == mtp.Liabilities && mtpRow(ctx, unbech32(mtp.Address), mtp.Id).Collateral == mtp.Collateral
+
+//@ func (Keeper).DestroyMTP
+//@ ensures C09/destroy-keeps-open-counter-in-step: err == nil && old(openMtpCount(ctx)) > 0 ==> mtpCountGap(ctx) == old(mtpCountGap(ctx))
+//@ ensures C09/destroy-removes-the-row: err == nil ==> !mtpHas(ctx, mtpAddress, id)
+//@ ensures C09/destroy-refuses-a-missing-position: (err != nil) == !old(mtpHas(ctx, mtpAddress, id))
 
 // The owner's close looks the position up under the sender's own address.
 //@ func (Keeper).ClosePosition
@@ -172,21 +205,58 @@ package keeper
 // ---- C02: transfers between a position and the amm pool move reserves, never shares ------------------
 //@ func (Keeper).SendToAmmPool
 //@ forall p Int
+//@ modifies bank, module:amm, *ammPool
+//@ modular-for (Keeper).Borrow
 //@ callers-assumed the perpetual flows thread the amm pool object they read at the start of the transaction; no join or exit happens in between
-//@ requires ammPoolHas(ctx, ammPool.PoolId) && ammPool.TotalShares.Amount == ammPoolRow(ctx, ammPool.PoolId).TotalShares.Amount && poolWF(ammPool)
+//@ requires C01,C02/pool-object-current: ammPoolHas(ctx, ammPool.PoolId) && ammPool.TotalShares.Amount == ammPoolRow(ctx, ammPool.PoolId).TotalShares.Amount && poolWF(ammPool)
 //@ ensures C02/total-shares-track-supply: err == nil ==> shareGap(ctx, p) == old(shareGap(ctx, p))
 //@ forall d Str
-//@ requires reserveOf(ammPool, d) == reserveOf(ammPoolRow(ctx, ammPool.PoolId), d)
+//@ requires C01,C02/pool-object-reserves-current: reserveOf(ammPool, d) == reserveOf(ammPoolRow(ctx, ammPool.PoolId), d)
 //@ ensures C01/book-and-bank-in-step: err == nil && notPoolAccount(senderAddress, ammPool.PoolId) ==> reserveGap(ctx, ammPool.PoolId, d) == old(reserveGap(ctx, ammPool.PoolId, d))
 //@ ensures C01/other-pools-in-step: err == nil && p != ammPool.PoolId && notPoolAccount(senderAddress, p) ==> reserveGap(ctx, p, d) == old(reserveGap(ctx, p, d))
 
 //@ func (Keeper).SendFromAmmPool
 //@ forall p Int
+//@ modifies bank, module:amm, *ammPool
+//@ modular-for (Keeper).Repay, (Keeper).SettleMTPBorrowInterestUnpaidLiability
 //@ callers-assumed the perpetual flows thread the amm pool object they read at the start of the transaction; no join or exit happens in between
-//@ requires ammPoolHas(ctx, ammPool.PoolId) && ammPool.TotalShares.Amount == ammPoolRow(ctx, ammPool.PoolId).TotalShares.Amount && poolWF(ammPool)
+//@ requires C01,C02/pool-object-current: ammPoolHas(ctx, ammPool.PoolId) && ammPool.TotalShares.Amount == ammPoolRow(ctx, ammPool.PoolId).TotalShares.Amount && poolWF(ammPool)
 //@ ensures C02/total-shares-track-supply: err == nil ==> shareGap(ctx, p) == old(shareGap(ctx, p))
 //@ forall d Str
-//@ requires reserveOf(ammPool, d) == reserveOf(ammPoolRow(ctx, ammPool.PoolId), d)
+//@ requires C01,C02/pool-object-reserves-current: reserveOf(ammPool, d) == reserveOf(ammPoolRow(ctx, ammPool.PoolId), d)
 //@ ensures C01/book-and-bank-in-step: err == nil && notPoolAccount(receiverAddress, ammPool.PoolId) ==> reserveGap(ctx, ammPool.PoolId, d) == old(reserveGap(ctx, ammPool.PoolId, d))
 //@ ensures C01/other-pools-in-step: err == nil && p != ammPool.PoolId && notPoolAccount(receiverAddress, p) ==> reserveGap(ctx, p, d) == old(reserveGap(ctx, p, d))
 
+
+// ---- C09: pool aggregates equal the sums over positions (per operation, on the objects the operation is
+// handed; see DESIGN A.4 for the scope) ---------------------------------------------------------------------
+//@ func (Keeper).Repay
+//@ forall d Str
+//@ forall s Int
+//@ modifies bank, module:amm, module:perpetual, *mtp, *pool, *ammPool
+//@ ensures C09/repay-takes-the-same-custody-from-position-and-pool: err == nil ==> perpCustodyOf(pool, s, d) - old(perpCustodyOf(pool, s, d)) == ite(sameBook(s, d, mtp.Position, mtp.CustodyAsset), mtp.Custody - old(mtp.Custody), 0)
+//@ ensures C09/repay-takes-the-same-liabilities-from-position-and-pool: err == nil ==> perpLiabOf(pool, s, d) - old(perpLiabOf(pool, s, d)) == ite(sameBook(s, d, mtp.Position, mtp.LiabilitiesAsset), mtp.Liabilities - old(mtp.Liabilities), 0)
+//@ ensures C09/repay-takes-the-same-collateral-from-position-and-pool: err == nil ==> perpCollOf(pool, s, d) - old(perpCollOf(pool, s, d)) == ite(sameBook(s, d, mtp.Position, mtp.CollateralAsset), mtp.Collateral - old(mtp.Collateral), 0)
+//@ ensures C09/repay-stores-the-updated-pool: err == nil ==> perpPoolHas(ctx, pool.AmmPoolId) && perpCustodyOf(perpPoolRow(ctx, pool.AmmPoolId), s, d) == perpCustodyOf(pool, s, d) && perpLiabOf(perpPoolRow(ctx, pool.AmmPoolId), s, d) == perpLiabOf(pool, s, d) && perpCollOf(perpPoolRow(ctx, pool.AmmPoolId), s, d) == perpCollOf(pool, s, d)
+//@ ensures C09/repay-stores-or-removes-the-position: err == nil ==> ite(mtp.Custody <= 0, !mtpHas(ctx, unbech32(mtp.Address), mtp.Id), mtpHas(ctx, unbech32(mtp.Address), mtp.Id) && mtpRow(ctx, unbech32(mtp.Address), mtp.Id).Custody == mtp.Custody && mtpRow(ctx, unbech32(mtp.Address), mtp.Id).Liabilities == mtp.Liabilities && mtpRow(ctx, unbech32(mtp.Address), mtp.Id).Collateral == mtp.Collateral)
+
+//@ func (Keeper).FundingFeeCollection
+//@ forall d Str
+//@ forall s Int
+//@ modifies *mtp, *pool
+//@ ensures C09/funding-collection-leaves-position-and-pool-custody-alike: err == nil ==> perpCustodyOf(pool, s, d) - old(perpCustodyOf(pool, s, d)) == ite(sameBook(s, d, mtp.Position, mtp.CustodyAsset), mtp.Custody - old(mtp.Custody), 0)
+//@ ensures C09/funding-collection-keeps-liabilities-and-collateral: mtp.Liabilities == old(mtp.Liabilities) && mtp.Collateral == old(mtp.Collateral) && perpLiabOf(pool, s, d) == old(perpLiabOf(pool, s, d)) && perpCollOf(pool, s, d) == old(perpCollOf(pool, s, d))
+
+//@ func (Keeper).FundingFeeDistribution
+//@ forall d Str
+//@ forall s Int
+//@ modifies *mtp, *pool
+//@ ensures C09/funding-distribution-leaves-position-and-pool-custody-alike: err == nil ==> perpCustodyOf(pool, s, d) - old(perpCustodyOf(pool, s, d)) == ite(sameBook(s, d, mtp.Position, mtp.CustodyAsset), mtp.Custody - old(mtp.Custody), 0)
+//@ ensures C09/funding-distribution-keeps-liabilities-and-collateral: mtp.Liabilities == old(mtp.Liabilities) && mtp.Collateral == old(mtp.Collateral) && perpLiabOf(pool, s, d) == old(perpLiabOf(pool, s, d)) && perpCollOf(pool, s, d) == old(perpCollOf(pool, s, d))
+
+// Consolidation: the surviving position takes over exactly the amounts of the position that is removed.
+//@ func (Keeper).OpenConsolidateMergeMtp
+//@ modifies module:perpetual, *existingMtp, *newMtp
+//@ ensures C09/merge-moves-the-amounts-to-the-surviving-position: err == nil ==> existingMtp.Custody == old(existingMtp.Custody) + old(newMtp.Custody) && existingMtp.Liabilities == old(existingMtp.Liabilities) + old(newMtp.Liabilities) && existingMtp.Collateral == old(existingMtp.Collateral) + old(newMtp.Collateral)
+//@ ensures C09/merge-removes-the-merged-position: err == nil ==> !mtpHas(ctx, unbech32(newMtp.Address), newMtp.Id)
+//@ ensures C09/merge-stores-the-surviving-position: err == nil && (unbech32(existingMtp.Address) != unbech32(newMtp.Address) || existingMtp.Id != newMtp.Id) ==> mtpHas(ctx, unbech32(existingMtp.Address), existingMtp.Id) && mtpRow(ctx, unbech32(existingMtp.Address), existingMtp.Id).Custody == existingMtp.Custody && mtpRow(ctx, unbech32(existingMtp.Address), existingMtp.Id).Liabilities == existingMtp.Liabilities && mtpRow(ctx, unbech32(existingMtp.Address), existingMtp.Id).Collateral == existingMtp.Collateral
